@@ -920,17 +920,19 @@ pub fn init_pool(n: usize, use_current: bool) -> bool {
     }
     s.pool_built = true;
     s.use_current = use_current;
-    if use_current {
-        s.pool_size = 1;
-        s.threads[me].worker = true;
-        s.log_line(me, "pool", 1, 1, 0);
-        return true;
-    }
     let n = n.max(1);
     s.pool_size = n;
-    s.log_line(me, "pool", n as u64, 0, 0);
+    // rayon's `use_current_thread()` makes the calling thread one of the pool's `n` workers (it
+    // does not by itself limit the pool to one thread).
+    let to_spawn = if use_current {
+        s.threads[me].worker = true;
+        n - 1
+    } else {
+        n
+    };
+    s.log_line(me, "pool", n as u64, u64::from(use_current), 0);
     let mut ids = Vec::new();
-    for _ in 0..n {
+    for _ in 0..to_spawn {
         let t = s.new_thread(true);
         s.threads[t].st = St::Blocked;
         s.threads[t].wait = Wait::Idle;
